@@ -62,6 +62,10 @@ OPS = {
     # items WITHOUT defaults left out by the text: what the result holds is the application's to mutate
     15: ('valid+mutate', ['<tc/>'], ()),
     16: ('valid', ['<tc>', 'zq 1', 'kw 2', '</tc>'], ()),
+    # an override for ONE entry of a '+' multikey map whose other entries (and this one) have defaults
+    17: ('overrides', ['<tb x/>'], ('x/da=9', 'x/kn=7')),
+    # a conversion fault on a stock datatype after a component named that datatype by its dotted path
+    18: ('import', ['%import vfq_dt', '<pd/>'], ()),
 }
 
 
@@ -184,7 +188,8 @@ class C13(Harness):
             try:
                 cfg, handler = ZConfig.loadConfigFile(schema, common.make_file(lines), P.MAIN, overrides)
             except ZConfig.ConfigurationError as e:
-                return ('reject', type(e).__name__)
+                # the whole outcome: class AND text of the error (what the user gets to read)
+                return ('reject', type(e).__name__, str(e))
             except Exception as e:
                 return ('crash', type(e).__name__)
         tree = P.walk(cfg)
